@@ -436,13 +436,13 @@ impl Read for OverReport {
 /// Which excesses to try, given the buffer size libyaml passes and the honest
 /// count: around the guard's boundary, small, and huge.
 #[derive(Clone, Copy, Debug)]
-enum Excess {
+pub enum Excess {
 	Abs(usize),
 	/// reported = size + d
 	ToSize(i64),
 }
 
-fn guards_case(out: &mut Out, data: &[u8], nth: usize, cap: usize, excess: Excess) {
+pub fn guards_case(out: &mut Out, data: &[u8], nth: usize, cap: usize, excess: Excess) {
 	// Probe run: what buffer size and honest count does the nth call see?
 	let probe = Rc::new(Cell::new(None));
 	let _ = xt::verif::yaml_events(Box::new(OverReport { data: data.to_vec(), pos: 0, nth, excess: 0, cap, calls: 0, seen: probe.clone() }));
@@ -542,6 +542,12 @@ pub fn run(out: &mut Out, rng: &mut Rng, thorough: bool) {
 	}
 
 	// 5. Over-reporting readers.
+	run_guards(out, rng, thorough);
+}
+
+/// The `guards` correspondence on its own (also used by C17): over-reporting
+/// readers against `read_handler`'s guard and `ChunkReader::read`'s slice index.
+pub fn run_guards(out: &mut Out, rng: &mut Rng, thorough: bool) {
 	let data = b"---\nevil: true\n---\n- second\n- document\n";
 	let mut big = String::new();
 	for i in 0..3000 {
